@@ -44,7 +44,9 @@ pub const INSTRUMENTS: [(usize, &str); 7] = [(0, "NoInstruments"), (32, "LogsWit
 pub fn metrics_on(instruments: usize) -> bool { instruments & 15 != 0 }
 
 #[derive(Debug, Clone)]
-pub struct Cfg { pub kind: Kind, pub instruments: usize, pub limit: u32, pub timeout_ms: u64, pub seq: Vec<Class> }
+pub struct Cfg { pub kind: Kind, pub instruments: usize, pub limit: u32, pub timeout_ms: u64, pub seq: Vec<Class>,
+                 /// fallible futures only: the (async) error callback sleeps a virtual millisecond before it completes
+                 pub slow_on_err: bool }
 
 #[derive(Debug, Clone, Default)]
 struct Closing { calls: u32, at: u64, status: Option<ExecutorStatus>, start_delta: u64, finish_delta: u64, ok: u32, timed_out: u32, failed: u32 }
@@ -54,13 +56,15 @@ fn run_generic<const I: usize>(cfg: &Cfg) -> (Probes, Closing, bool) {
     let probes = new_probes(n);
     let closing = Arc::new(Mutex::new(Closing::default()));
     let seq = cfg.seq.clone();
-    let (kind, limit, timeout) = (cfg.kind, cfg.limit, Duration::from_millis(cfg.timeout_ms));
+    let (kind, limit, timeout, slow_on_err) = (cfg.kind, cfg.limit, Duration::from_millis(cfg.timeout_ms), cfg.slow_on_err);
     let (p2, c2) = (probes.clone(), closing.clone());
     let finished = asyncx::run_virtual(async move {
         let exec = if kind.futures() { StreamExecutor::<I>::with_futures_timeout("x", timeout) } else { StreamExecutor::<I>::new("x") };
         let (tx, rx) = tokio::sync::oneshot::channel::<()>();
         let tx = Arc::new(Mutex::new(Some(tx)));
-        let cb = { let (c2, tx) = (c2.clone(), tx.clone()); move |stats: Arc<dyn StreamExecutorStats + Send + Sync>| { let (c2, tx) = (c2.clone(), tx.clone()); async move {
+        let pcb = p2.clone();
+        let cb = { let (c2, tx) = (c2.clone(), tx.clone()); move |stats: Arc<dyn StreamExecutorStats + Send + Sync>| { let (c2, tx, pcb) = (c2.clone(), tx.clone(), pcb.clone()); async move {
+            { let mut p = pcb.lock().unwrap(); let pending = p.err_handlers_begun - p.err_handlers_done; p.err_handlers_pending_at_close = p.err_handlers_pending_at_close.max(pending); }
             let mut c = c2.lock().unwrap();
             c.calls += 1; c.at = vnow(); c.status = Some(stats.executor_status().load(Relaxed));
             c.start_delta = stats.execution_start_delta_nanos(); c.finish_delta = stats.execution_finish_delta_nanos();
@@ -70,7 +74,8 @@ fn run_generic<const I: usize>(cfg: &Cfg) -> (Probes, Closing, bool) {
         let pe = p2.clone();
         let on_err_sync = move |e: BoxErr| { pe.lock().unwrap().on_err.push(e.to_string()) };
         match kind {
-            Kind::FalFut => { let p = p2.clone(); let s = futures::stream::iter(seq.into_iter().enumerate()).map(move |(i, c)| item_work(i, c, p.clone())); let oe = on_err_sync.clone(); exec.clone().spawn_executor(limit, move |e| { oe(e); async {} }, cb, s) }
+            Kind::FalFut => { let p = p2.clone(); let s = futures::stream::iter(seq.into_iter().enumerate()).map(move |(i, c)| item_work(i, c, p.clone())); let oe = on_err_sync.clone(); let ph = p2.clone(); let slow = slow_on_err;
+                exec.clone().spawn_executor(limit, move |e| { oe(e); let ph = ph.clone(); async move { ph.lock().unwrap().err_handlers_begun += 1; if slow { tokio::time::sleep(Duration::from_millis(1)).await } ph.lock().unwrap().err_handlers_done += 1; } }, cb, s) }
             Kind::Fut => { let p = p2.clone(); let s = futures::stream::iter(seq.into_iter().enumerate()).map(move |(i, c)| { let f = item_work(i, c, p.clone()); async move { f.await.unwrap_or(u32::MAX) } }); exec.clone().spawn_futures_executor(limit, cb, s) }
             Kind::Fal | Kind::NonFut | Kind::Plain => {
                 // non-future items: "processing" an item is the executor taking it from the stream
@@ -121,6 +126,7 @@ pub fn judge(cfg: &Cfg) -> Vec<(String, String)> {
     if c.start_delta == u64::MAX || c.finish_delta == u64::MAX || c.finish_delta < c.start_delta { v.push(("finish-before-start".into(), format!("start delta {} / finish delta {}: {ctx}", c.start_delta, c.finish_delta))) }
     let last_done = p.items.iter().filter_map(|i| i.completed).max().unwrap_or(0);
     if c.at < last_done { v.push(("close-callback-early".into(), format!("the close callback ran at {} ms, the last item completed at {} ms: {ctx}", c.at / 1_000_000, last_done / 1_000_000))) }
+    if cfg.kind == Kind::FalFut && (p.err_handlers_pending_at_close != 0 || p.err_handlers_done != p.err_handlers_begun) { v.push(("close-callback-early".into(), format!("the close callback ran while {} error handler(s) of failed items were still running ({} begun, {} finished in the end): {ctx}", p.err_handlers_pending_at_close, p.err_handlers_begun, p.err_handlers_done))) }
     if p.in_flight != 0 || p.items.iter().any(|i| i.started.is_some() && i.completed.is_none() && !i.cancelled) { v.push(("close-callback-early".into(), format!("an item is still in progress after the close callback: {ctx}"))) }
     // ---- C11
     for (i, it) in p.items.iter().enumerate() {
@@ -151,7 +157,9 @@ pub fn configs(tier: Tier) -> Vec<Cfg> {
         for timeout_ms in if kind.futures() { vec![0, TIMEOUT_MS] } else { vec![0] } {
             let len = if kind.futures() { if kind == Kind::FalFut && tier == Tier::Thorough { 4 } else { max_len } } else { max_len + 1 };
             for seq in sequences(&kind.alphabet(timeout_ms != 0), len) {
-                for (instruments, _) in INSTRUMENTS { for limit in &limits { v.push(Cfg { kind, instruments, limit: *limit, timeout_ms, seq: seq.clone() }) } }
+                for (instruments, _) in INSTRUMENTS { for limit in &limits { v.push(Cfg { kind, instruments, limit: *limit, timeout_ms, seq: seq.clone(), slow_on_err: false }) } }
+                // the same workload with an error handler that takes a (virtual) millisecond
+                if kind == Kind::FalFut && seq.iter().any(|c| c.is_err()) && seq.len() <= 3 { for instruments in [0usize, 7] { for limit in [1u32, 2, 3] { v.push(Cfg { kind, instruments, limit, timeout_ms, seq: seq.clone(), slow_on_err: true }) } } }
             }
             // one item keeps the thread busy past the time budget in wall-clock terms while its siblings fail / succeed on the virtual clock
             if kind.futures() && timeout_ms != 0 {
@@ -159,7 +167,7 @@ pub fn configs(tier: Tier) -> Vec<Cfg> {
                 for seq in sequences(&others, 2) {
                     for pos in 0..=seq.len() {
                         let mut s = seq.clone(); s.insert(pos, Class::HogOk);
-                        for instruments in [7usize, 107] { for limit in [1u32, 2, 3] { v.push(Cfg { kind, instruments, limit, timeout_ms, seq: s.clone() }) } }
+                        for instruments in [7usize, 107] { for limit in [1u32, 2, 3] { v.push(Cfg { kind, instruments, limit, timeout_ms, seq: s.clone(), slow_on_err: false }) } }
                     }
                 }
             }
@@ -172,9 +180,9 @@ pub fn configs(tier: Tier) -> Vec<Cfg> {
 pub const C12_KINDS: [&str; 5] = ["close-callback-missing", "close-callback-repeated", "close-callback-early", "status", "finish-before-start"];
 
 pub fn tuples(prop: &'static str, tier: Tier) -> Vec<Tuple> {
-    configs(tier).into_iter().filter(|cfg| prop == "C11" || cfg.instruments == 7 || cfg.instruments == 0 || cfg.seq.len() <= 2).map(|cfg| {
+    configs(tier).into_iter().filter(|cfg| if prop == "C11" { !cfg.slow_on_err } else { cfg.instruments == 7 || cfg.instruments == 0 || cfg.seq.len() <= 2 }).map(|cfg| {
         let iname = INSTRUMENTS.iter().find(|(i, _)| *i == cfg.instruments).map(|(_, n)| *n).unwrap_or("?");
-        Tuple { family: format!("executor-{}/{}/{}", cfg.kind.name(), if cfg.timeout_ms == 0 { "no-timeout".to_string() } else { format!("timeout-{}ms", cfg.timeout_ms) }, iname),
+        Tuple { family: format!("executor-{}/{}/{}{}", cfg.kind.name(), if cfg.timeout_ms == 0 { "no-timeout".to_string() } else { format!("timeout-{}ms", cfg.timeout_ms) }, iname, if cfg.slow_on_err { "/slow-error-handler" } else { "" }),
                 rung: format!("L{}-{}", cfg.limit, seq_name(&cfg.seq)),
                 run: Box::new(move || judge(&cfg).into_iter().filter(|(k, _)| C12_KINDS.contains(&k.as_str()) == (prop == "C12")).collect()) }
     }).collect()
